@@ -34,3 +34,6 @@ import MicroHttp.Props.C04Limit
 #print axioms MicroHttp.Tables.server_set_limit
 #print axioms MicroHttp.Tables.conn_set_limit
 #print axioms MicroHttp.Tables.accept_configures_limit
+#print axioms MicroHttp.Tables.conn_fields
+#print axioms MicroHttp.Tables.client_fields
+#print axioms MicroHttp.Tables.server_fields
